@@ -62,30 +62,52 @@ def gen_behaviours(module: str, cfg: str, num: int, depth: int, seed: int, timeo
     return out
 
 
-def run_and_validate(items: List[dict], batch: int = 1500) -> Dict[int, dict]:
-    """items: [{"tid", "ev"}] -> tid -> verdict"""
+def _validate_chunk(chunk):
+    v = tlc.validate_traces(chunk)
+    if v["tlc"]["error"] and not v["by_tid"]:
+        raise tlc.TlcError("trace validation failed: " + str(v["tlc"]["error"]) + v["tlc"]["out"][-2000:])
+    for t in chunk:
+        if t["tid"] not in v["by_tid"]:
+            raise tlc.TlcError(f"no verdict for trace {t['tid']}\n" + v["tlc"]["out"][-3000:])
+    return v["by_tid"]
+
+
+def run_and_validate(items: List[dict], jobs: int = 8) -> Dict[int, dict]:
+    """items: [{"tid", "ev"}] -> tid -> verdict.  Several TLC processes in parallel (each -workers 1)."""
+    from concurrent.futures import ThreadPoolExecutor
+
+    if not items:
+        return {}
+    n = max(1, min(jobs, (len(items) + 149) // 150))
+    chunks = [items[i::n] for i in range(n)]
     res: Dict[int, dict] = {}
-    for i in range(0, len(items), batch):
-        chunk = items[i: i + batch]
-        v = tlc.validate_traces(chunk)
-        if v["tlc"]["error"] and not v["by_tid"]:
-            raise tlc.TlcError("trace validation failed: " + str(v["tlc"]["error"]) + v["tlc"]["out"][-2000:])
-        for t in chunk:
-            if t["tid"] not in v["by_tid"]:
-                raise tlc.TlcError(f"no verdict for trace {t['tid']}\n" + v["tlc"]["out"][-3000:])
-        res.update(v["by_tid"])
+    with ThreadPoolExecutor(max_workers=n) as ex:
+        for r in ex.map(_validate_chunk, chunks):
+            res.update(r)
     return res
 
 
-def replay_all(behs: List[list], profiles: List[Profile], log_level: int = 100):
-    """returns list of dict(tid, beh_index, profile, ev, crashed)"""
-    out = []
+def _replay_one(args):
+    tid, bi, b, prof, log_level = args
+    h = replay(b, prof, log_level=log_level)
+    return {"tid": tid, "beh": bi, "prof": prof, "ev": h.events, "crashed": h.crashed, "diag": None}
+
+
+def replay_all(behs: List[list], profiles: List[Profile], log_level: int = 100, jobs: int = 12):
+    """returns list of dict(tid, beh_index, profile, ev, crashed); replays run in forked worker processes"""
+    import multiprocessing as mp
+
+    work = []
     tid = 0
+    for bi, b in enumerate(behs):
+        for prof in profiles:
+            tid += 1
+            work.append((tid, bi, b, prof, log_level))
+    if not work:
+        return []
     with Quiet():
-        for bi, b in enumerate(behs):
-            for prof in profiles:
-                tid += 1
-                h = replay(b, prof, log_level=log_level)
-                out.append({"tid": tid, "beh": bi, "prof": prof, "ev": h.events, "crashed": h.crashed,
-                            "diag": None})
-    return out
+        if len(work) < 40:
+            return [_replay_one(w) for w in work]
+        ctx = mp.get_context("fork")
+        with ctx.Pool(min(jobs, max(1, len(work) // 20))) as pool:
+            return pool.map(_replay_one, work, chunksize=10)
